@@ -5,6 +5,9 @@ def text_edit(old, new):
         return src.replace(old, new, 1) if old in src else None
     return edit
 MUTANTS = [
+    Mutant('eta_gradient_prefers_stored', 'src/pharmpy/modeling/evaluation.py', text_edit("    if etas is not None:\n        _etas = etas\n    elif model.initial_individual_estimates is not None:\n        _etas = model.initial_individual_estimates\n    else:", "    _etas = model.initial_individual_estimates\n    if _etas is None:\n        _etas = etas\n    if _etas is None:"), 'F5', 'stored estimates win over the argument'),
+    Mutant('assumptions_swapped', 'src/pharmpy/modeling/expressions.py', text_edit("            s = sympy.Symbol(p.name, real=True, nonnegative=True)", "            s = sympy.Symbol(p.name, real=True, positive=True)"), 'F6', 'lower >= 0 treated as positive'),
+    Mutant('kept_symbols_not_defined', 'src/pharmpy/model/external/nonmem/records/code_record.py', text_edit("                for s in statements:\n                    if isinstance(s, Assignment):\n                        defined_symbols.add(s.symbol)\n", ""), 'F7', 'kept statements not recorded'),
     Mutant('obs_first_assignment', 'src/pharmpy/modeling/expressions.py', text_edit("    for i in range(len(stats) - 1, -1, -1):\n        s = stats[i]\n        if isinstance(s, Assignment) and s.symbol == dv:", "    for i in range(len(stats)):\n        s = stats[i]\n        if isinstance(s, Assignment) and s.symbol == dv:"), 'F3', 'first assignment of the DV'),
     Mutant('obs_full_expression', 'src/pharmpy/modeling/expressions.py', text_edit("    for j in range(i - 1, -1, -1):\n        y = y.subs({stats[j].symbol: stats[j].expression})\n\n    return y", "    return stats.full_expression(y)"), 'F3', 'later definitions substituted'),
     Mutant('declarative_drops_subs', 'src/pharmpy/modeling/expressions.py', text_edit("            s = s.subs(current)\n            newstats.append(s)", "            s.subs(current)\n            newstats.append(s)"), 'F4', 'result of subs dropped'),
